@@ -130,7 +130,10 @@ class RegistryServer(object):
             if magic != "RPYC":
                 self.logger.warn("invalid magic: %r", magic)
                 continue
-            cmdfunc = getattr(self, "cmd_%s" % (cmd.lower(),), None)
+            try:
+                cmdfunc = getattr(self, "cmd_%s" % (cmd.lower(),), None)
+            except Exception:
+                cmdfunc = None  # the command is not even text
             if not cmdfunc:
                 self.logger.warn("unknown command: %r", cmd)
                 continue
